@@ -136,7 +136,7 @@ func main() {
 			}
 			astutil.AddImport(p.Fset, f, simrtPath)
 			// drop imports that became unused through the rewrites
-			for _, imp := range []string{"github.com/oklog/ulid/v2"} {
+			for _, imp := range []string{"github.com/oklog/ulid/v2", "maps", "golang.org/x/exp/maps"} {
 				if !astutil.UsesImport(f, imp) {
 					astutil.DeleteImport(p.Fset, f, imp)
 				}
@@ -447,6 +447,39 @@ func (in *instr) rewriteCall(c *astutil.Cursor, call *ast.CallExpr) {
 			in.rep.Uncontrolled = append(in.rep.Uncontrolled, in.site("call "+full, call.Pos(), ""))
 		}
 		return
+	}
+	// maps.Keys / maps.Values / maps.All (std, iterators) and x/exp/maps.Keys /
+	// Values (slices): map iteration order in another guise
+	if (fn.Pkg().Path() == "maps" || fn.Pkg().Path() == "golang.org/x/exp/maps") && len(call.Args) == 1 {
+		if tv, ok := info.Types[call.Args[0]]; ok {
+			if mt, ok := tv.Type.Underlying().(*types.Map); ok {
+				name := ""
+				std := fn.Pkg().Path() == "maps"
+				switch fn.Name() {
+				case "Keys":
+					name = map[bool]string{true: "RangeMapKeys", false: "MapKeysSlice"}[std]
+				case "Values":
+					name = map[bool]string{true: "RangeMapValues", false: "MapValuesSlice"}[std]
+				case "All":
+					if std {
+						name = "RangeMap"
+					}
+				}
+				if name != "" {
+					site := in.site("map", call.Pos(), fn.Pkg().Name()+"."+fn.Name()+" "+in.exprString(call.Args[0]))
+					if isOrdered(mt.Key()) {
+						in.rep.MapRangeSites = append(in.rep.MapRangeSites, site)
+						call.Fun = &ast.SelectorExpr{X: ast.NewIdent("simrt"), Sel: ast.NewIdent(name)}
+						call.Args = append(call.Args, strLit(site))
+						in.changed = true
+					} else if in.full {
+						in.rep.MapRangeAny = append(in.rep.MapRangeAny, site)
+						in.rep.Uncontrolled = append(in.rep.Uncontrolled, site)
+					}
+					return
+				}
+			}
+		}
 	}
 	if in.full && (fn.Pkg().Path() == "math/rand" || fn.Pkg().Path() == "math/rand/v2" || fn.Pkg().Path() == "crypto/rand") {
 		in.rep.Uncontrolled = append(in.rep.Uncontrolled, in.site("call "+full, call.Pos(), ""))
